@@ -13,9 +13,13 @@ def run_one(d):
     tmp = tempfile.mkdtemp(prefix="seed.", dir="/tmp")
     try:
         subprocess.run(["rsync", "-a", "--exclude", "target", "--exclude", ".git", "/repo/", tmp + "/"], check=True)
-        r = subprocess.run(["patch", "-p1", "-s", "-d", tmp, "-i", patch], capture_output=True, text=True)
-        if r.returncode != 0:
-            return (d, None, "patch does not apply")
+        mp0 = os.path.join(d, "meta.json")
+        base = (json.load(open(mp0)) if os.path.isfile(mp0) else {}).get("base")
+        todo = ([os.path.join(VERIF, "selftest", "equivalents", base + ".diff")] if base else []) + [patch]
+        for one in todo:
+            r = subprocess.run(["patch", "-p1", "-s", "-d", tmp, "-i", one], capture_output=True, text=True)
+            if r.returncode != 0:
+                return (d, None, "patch does not apply")
         r = subprocess.run(["python3", os.path.join(VERIF, "sa", "run.py"), ",".join(PROPS), "--repo", tmp], capture_output=True, text=True, env=dict(os.environ, VERIF_NO_EVIDENCE="1"))
         if r.returncode == 2:
             return (d, None, "does not build: " + r.stdout[-200:])
